@@ -375,6 +375,15 @@ def gen_term_case(r, idx, wild=False, nops=None, kinds=None):
                                          "T 0 oda", "T 0 raw " + DEFAULT_TXT, "T 0 erase %d" % r.below(6)]))
             elif wild or any(re.match(r"T 0 (elem|str|oda|erase)", l) for l in lines[max([i for i, l in enumerate(lines) if l == "T 0 forget 0"] + [0]):]):
                 lines.append("T 0 raw " + es.next())
+            if not wild and w > 0 and r.chance(1, 10):
+                # the connection fails for the first write of a cursor operation; the
+                # application tries again
+                opf = r.pick(["hide", "show", "move %d %d" % (r.below(w), r.below(h))])
+                lines.append("T 0 failnext")
+                lines.append("T 0 " + opf)
+                lines.append("T 0 " + opf)
+                if opf.startswith("move"):
+                    cur = (int(opf.split()[1]), int(opf.split()[2]))
             if not wild and r.chance(1, 6):
                 # a manipulator of the application's own that marks a belief as unknown
                 kf = r.below(4)
@@ -586,6 +595,11 @@ def gen_screen_case(r, idx, wild=False):
         if not wild and r.chance(1, 6):
             lines.append("K 0 hold %d %d" % (r.below(w), r.below(h)))
             holding = True
+        if not wild and frame > 0 and r.chance(1, 6):
+            # input arrives between two frames (a key, a late status report)
+            if not any(l == "T 0 arm" for l in lines):
+                lines.append("T 0 arm")
+            lines.append("T 0 recv " + r.pick(["1b5b313b3252", "1b5b323b3352", "1b5b41", "1b4f50", "61"]))
         if not wild and r.chance(1, 5):
             # the application switches a mode between two frames
             lines.append("T 0 " + r.pick(["hide", "hide", "show", "mouse 1", "mouse 0", "buf 1", "buf 0", "title 6162"]))
@@ -803,6 +817,11 @@ def last_bare(items):
 def gen_items_case(r, idx):
     lines = ["CASE %d" % idx, "T 0 new %d" % beh_mask(r), "T 0 arm"]
     pb = None
+    if r.chance(1, 8):
+        # a complete sequence the protocol gives no meaning to (a mode report, a paste
+        # bracket, ...) arrives first: the decoder is at rest after it
+        n0 = r.pick([200, 201, 27, 0, 7, 99, 1000, 2004])
+        lines.append("T 0 recv " + hexs([27, 91] + [ord(c) for c in "%d%s" % (n0, r.pick(["~", "~", ";1~", "u", "t"]))]))
     long = r.chance(1, 25)
     for _ in range(r.rng(1, 3)):
         its = gen_items(r, r.pick([31, 32, 33, 64, 65, 130]) if long else r.rng(1, 8), prev_bare=pb)
@@ -813,7 +832,11 @@ def gen_items_case(r, idx):
             between = "sleep_1200" if idx % 1500 == 7 else r.pick(["-", "-", "size_%d_%d" % (r.rng(1, 9), r.rng(1, 5)), "size_80_24", "mouse_0", "mouse_1", "hide", "show",
                               "erase_0", "move_0_0", "save", "restore", "buf_1", "buf_0", "title_6162", "alive_0", "alive_1",
                               "elem_" + el(wf_glyph(r), wf_attr(r)).replace(" ", "_")])
-            lines.append("T 0 itemsplit %d %s %s" % (r.below(64), between, " ".join(its)))
+            cut = r.below(64)
+            if between.startswith("sleep"):
+                its = ["IT csikey 0 %d -1 -1" % r.pick(CSI_KEYS)] + its
+                cut = r.pick([1, 1, 2])
+            lines.append("T 0 itemsplit %d %s %s" % (cut, between, " ".join(its)))
         else:
             lines.append("T 0 items " + " ".join(its))
     lines.append("END")
@@ -1103,7 +1126,7 @@ def gen_markup_case(r, idx, respell=False):
             cs = cs  # the charset directive state is reset to us_ascii by the decoder
             cs = 5
         else:
-            b = r.pick([r.rng(32, 126), r.below(256), 92])
+            b = r.pick([r.rng(32, 126), r.below(256), 92, r.rng(32, 126), 0 if r.chance(1, 3) else r.rng(32, 126)])
             if in_run:
                 b = r.pick([x for x in range(32, 127) if x != 92])
             if b == 92:
@@ -1149,7 +1172,10 @@ def gen_keyseq_case(r, idx):
             # parameters may be written with leading zeros (ECMA-48 5.4.1)
             z = r.pick([0, 0, 0, 1, 2, 9, 10, 16, 17, 18, 19, 20, 40, 62, 63, 64, 65, 127, 128, 300]) if r.chance(1, 4) else 0
             return b"0" * z + str(v).encode()
-        if r.chance(1, 2):
+        if r.chance(1, 6):
+            # three parameters (xterm's modifyOtherKeys form and its neighbours)
+            body = num(r.pick([27, 27, 1, 5, 28])) + b";" + num(r.rng(1, 16)) + b";" + num(r.pick([r.rng(128, 150), r.rng(32, 126), 13, 9, 127])) + b"~"
+        elif r.chance(1, 2):
             m = r.pick([-1, 1, 2, 5, 16, 17, 258, (1 << 32) + 2])
             body = num(n) + (b";" + num(m) if m >= 0 else b"") + b"~"
         else:
@@ -1247,6 +1273,8 @@ def gen_strobj_case(r, idx):
                 a = r.pick(ids); lines.append("Z %d pluselem %d %s" % (k, a, an_elem())); size[k] = size[a] + 1; t = k; k += 1
             elif c == 9:
                 lines.append("Z %d insert %d %s" % (t, r.pick([0, n, r.below(n + 1)]), an_elem())); size[t] += 1
+            elif c == 10 and r.chance(1, 3):
+                b = rb(r.rng(0, 6)); lines.append("Z %d insertstream %d %s" % (t, r.pick([0, n, r.below(n + 1)]), hexs(b))); size[t] += len(b)
             elif c == 10:
                 o = r.pick(ids); lines.append("Z %d insertrange %d %d" % (t, r.pick([0, n, r.below(n + 1)]), o)); size[t] += size[o]
             elif c == 11 and r.chance(1, 3):
